@@ -496,21 +496,50 @@ fn c11_case(b: &Board, spec: &PosSpec, depth: u8, job: usize, ev: &SimpleEvaluat
 // C16: determinism. Results are written to a file the driver compares across processes.
 // ---------------------------------------------------------------------------
 
-pub fn run_c16(tier: &str, seed: u64, shard: usize, of: usize, results_path: Option<&str>, time_cap: u64) -> Result<(), String> {
+pub fn run_c16(tier: &str, seed: u64, shard: usize, of: usize, results_path: Option<&str>, time_cap: u64, order: u64) -> Result<(), String> {
     let thorough = tier == "thorough";
-    let specs = positions(seed, if thorough { 1500 } else { 120 }, if thorough { 500 } else { 60 })?;
+    let mut specs = positions(seed, if thorough { 1500 } else { 120 }, if thorough { 500 } else { 60 })?;
+    // games searched move by move, as in play: position after 0, 2, 4, ... plies of the same game
+    // (with its history), so that anything a search leaves behind for "the next move" is exercised
+    let n_games = if thorough { 160 } else { 24 };
+    let game_src: Vec<PosSpec> = specs.iter().filter(|s| s.moves.len() >= 8).take(n_games).cloned().collect();
+    for g in &game_src {
+        for k in (0..=g.moves.len().min(10)).step_by(2) {
+            specs.push(PosSpec {
+                fen: g.fen.clone(),
+                moves: g.moves[..k].to_vec(),
+            });
+        }
+    }
     let started = std::time::Instant::now();
     let mut lines = Vec::new();
-    let mut job = 0;
     let mut distinct = 0u64;
-    for spec in &specs {
+    // the job list is fixed; the ORDER in which a process works through it depends on `order`
+    // (0 = as listed, 1 = reversed, 2 = interleaved), so that state leaking from one search into
+    // the next shows up as a difference between the process sets
+    let mut jobs: Vec<(usize, usize, u8)> = Vec::new();
+    let mut job = 0;
+    for (si, spec) in specs.iter().enumerate() {
         let units = Pos::from_fen(&spec.fen).map(|p| p.sq.iter().filter(|&&x| x != 0).count()).unwrap_or(32);
         let max_depth: u8 = if units <= 8 { 5 } else { 4 };
         for depth in 1..=max_depth {
             job += 1;
-            if job % of != shard {
-                continue;
+            if job % of == shard {
+                jobs.push((job, si, depth));
             }
+        }
+    }
+    match order {
+        1 => jobs.reverse(),
+        2 => {
+            let (a, b): (Vec<_>, Vec<_>) = jobs.iter().partition(|j| j.0 % 2 == 0);
+            jobs = a.into_iter().chain(b).collect();
+        }
+        _ => {}
+    }
+    for (job, si, depth) in jobs {
+        let spec = &specs[si];
+        {
             if started.elapsed().as_secs() > time_cap {
                 out::inconclusive("C16 jobs not started because the time cap was reached", 1);
                 continue;
@@ -563,6 +592,8 @@ pub fn run_c16(tier: &str, seed: u64, shard: usize, of: usize, results_path: Opt
     }
     out::count("C16.nontrivial", distinct);
     if let Some(p) = results_path {
+        // sorted by job number so that files of differently ordered runs compare line by line
+        lines.sort_by_key(|l: &String| l.split('\t').next().and_then(|x| x.parse::<usize>().ok()).unwrap_or(0));
         std::fs::write(p, lines.join("\n") + "\n").map_err(|e| e.to_string())?;
     }
     Ok(())
